@@ -166,6 +166,25 @@ def F6b():
     return ("/b" in r), f"applications started: {r} (every write failed from the first one on)"
 
 
+def F6c():
+    """HTTP/1.1: a request that asks to close (Connection: close) followed in the same read by
+    another pipelined request: h11 refuses the extra bytes, H11Protocol answers 400 while the first
+    request's application has not responded yet -- the client gets the 400 *in place of* the
+    response to its first request, and the connection is closed"""
+    async def app(scope, receive, send):
+        await asyncio.sleep(0.05)
+        await send({"type": "http.response.start", "status": 200, "headers": [(b"content-length", b"2")]})
+        await send({"type": "http.response.body", "body": b"ok"})
+
+    async def sc(h):
+        await h.feed(b"GET /a HTTP/1.1\r\nHost: x\r\nConnection: close\r\n\r\nGET /b HTTP/1.1\r\nHost: x\r\n\r\n")
+        await asyncio.sleep(0.3)
+        return h.wire
+    h, r, exc = run_h1(app, sc)
+    first = (r or b"").split(b"\r\n", 1)[0]
+    return (first.startswith(b"HTTP/1.1 400") and b"ok" not in (r or b"")), f"first line of what the client received for /a: {first!r}; the application's 200 'ok' on the wire: {b'ok' in (r or b'')}"
+
+
 SCENARIOS = {k: v for k, v in globals().items() if k.startswith("F") and callable(v)}
 
 if __name__ == "__main__":
